@@ -243,3 +243,5 @@ def run(ctx):
     r7_2(ctx)
     r7_3(ctx)
     r7_4(ctx)
+    from ..initflags import group_rule
+    group_rule(ctx, "R7.5", "cost", "the cost lists of an owner and of its members no longer cover the same steps, so a step's total no longer equals the sum of its parts")
